@@ -152,6 +152,9 @@ def flatten_alts(s, key):
             out.append(("pattern:" + w, [T("qstr", w)], w))
         elif pat:
             out.append(("string-pattern?", None, None))     # unknown pattern: reported by C19
+        elif s.get("maxLength"):
+            w = ("w_%s value" % key)[:s["maxLength"]]
+            out.append(("string", [T("qstr", w)], w))
         else:
             out.append(("string", [T("qstr", "w_%s value" % key)], "w_%s value" % key))
             out.append(("string-bare", [T("qstr", "w_%s" % key)], "w_%s" % key))
